@@ -923,7 +923,7 @@ func Spec() *core.Spec {
 		Rule: "a real kmipserver.Server on an in-memory listener with handlers scripted per request id {ok, typed error, plain error, panic with string/error/int/runtime error/struct/Stringer, slow (gated), big response}; " +
 			"1-16 (thorough: up to 256) concurrent scripted raw clients per history drawing up to 12 actions from {send whole, send in k pieces, pipeline n, framed-undecodable (4 kinds), unframed garbage, truncated+close, close while the handler runs, stop reading then close while a 200 KiB response is written, close now, slow handler released later, half-close and drain}; " +
 			"every request and response carries a unique id (Unique Batch Item ID) so each connection's received sequence is checked against its sent sequence (exactly once, in order, never more; complete when the client drained); " +
-			"the binary hostile corpus of C02 (length/type ladders over every item of valid requests, random mutations) fed one input per connection; a canary connection is pinged throughout; goroutine census at quiescence; Shutdown at the end; directed schedules through the verif hooks. The worker process is the crash monitor. distinct = distinct per-connection action sequences",
+			"the binary hostile corpus of C02 (length/type ladders over every item of valid requests, random mutations) fed one input per connection; a canary connection is pinged throughout; goroutine census at quiescence; Shutdown at the end; directed schedules through the verif hooks. The worker process is the crash monitor. a TLS listener with peers stalling in, garbling or abandoning the handshake while well-behaved TLS clients must be served and Shutdown must return; distinct = distinct per-connection action sequences",
 		Assumptions: []string{"a connection closed abruptly by the client may end short, never long or out of order", "goroutines gone = none with a library frame (other than the accept loop) within 10 s of the last connection ending"},
 		Required: []string{"histories", "tls_histories", "tls_good_clients", "tls_hostile_peers.kind0", "tls_hostile_peers.kind1", "tls_shutdowns_with_stalled_peers", "connections", "responses_received", "graceful_connections_fully_answered", "canary_pings", "census_checks", "undecodable_requests.kind0", "undecodable_requests.kind1",
 			"directed.client-gone-while-send-holds-tx", "hostile_inputs_framed", "hostile_rounds"},
